@@ -44,7 +44,7 @@ def ELabelOK (σ : St) : Label → Prop
       (σ.th u).g ≠ (σ.th t).g ∧ ((σ.th t).outer.creates = true → (σ.th u).g ≠ (σ.th t).ng)
   | _ => True
 
-theorem callPrep_ereg (σ : St) (t : Nat) (o : Outer) (g v ng ns : Nat) : (callPrep σ t o g v ng ns).ereg = σ.ereg := by
+theorem callPrep_edata (σ : St) (t : Nat) (o : Outer) (g v ng ns : Nat) : (callPrep σ t o g v ng ns).edata = σ.edata := by
   unfold callPrep; simp only []; split <;> rfl
 
 theorem callEntry_ereg (σ1 : St) (t : Nat) (o : Outer) (g ng ns : Nat) : (callEntry σ1 t o g ng ns).ereg = σ1.ereg :=
@@ -78,7 +78,7 @@ theorem einv_call {σ : St} (t : Nat) (o : Outer) (g v ng ns : Nat) (I : EInv σ
       unfold tokOf
       rw [hoth u hu]
       exact callStep_tok σ t o g v ng ns _ k2 k1
-    · exact edata_of (by rw [callEntry_mgr, callPrep_mgr]) (by rw [callEntry_ereg, callPrep_ereg])
+    · rw [edata_of (callEntry_mgr _ t o g ng ns) (callEntry_ereg _ t o g ng ns), callPrep_edata]
     · rw [callEntry_mgr, callPrep_mgr]
     · exact callEntry_eplain _ t o g ng ns (by rw [hpcP, hidle])
   · exact I
@@ -136,8 +136,9 @@ theorem einv_init (N : Nat) (bcast : Bool) (wait : WaitK) (fut : Bool) : EInv (i
   · intro s hs; simp [init, St.mgr, Mgr.pipe] at hs
   · intro t; simp [init, ELoc]
 
-/-- everything a step needs: ring hypotheses (`StepOK`), mutexes (`LockStepOK`), ownership (`ELabelOK`) -/
-def SafeStepOK (σ : St) (l : Label) : Prop := StepOK σ l ∧ LockStepOK σ l ∧ ELabelOK σ l
+/-- everything a step needs: mutexes (`LockStepOK`), ownership (`ELabelOK`). No hypothesis about the ring:
+the theorems cover the regions of the open findings F1/F12, the removal of the last stream and teardown. -/
+def SafeStepOK (σ : St) (l : Label) : Prop := LockStepOK σ l ∧ ELabelOK σ l
 
 inductive SafeRun : St → List Label → St → Prop
   | nil (σ : St) : SafeRun σ [] σ
@@ -146,13 +147,13 @@ inductive SafeRun : St → List Label → St → Prop
 
 /-- the three invariants together -/
 structure AllInv (σ : St) : Prop where
-  r : RInv σ
+  r : RegInv σ
   m : MInvS σ
   e : EInv σ
 
 theorem einv_step {σ : St} (l : Label) (A : AllInv σ) (h : SafeStepOK σ l) : AllInv (step σ l) := by
-  obtain ⟨h1, h2, h3⟩ := h
-  refine ⟨rinv_step l A.r h1, mgi_step l A.m h2, ?_⟩
+  obtain ⟨h2, h3⟩ := h
+  refine ⟨reginv_step l A.r, mgi_step l A.m h2, ?_⟩
   cases l
   case call t o g v ng ns => exact einv_call t o g v ng ns A.e h3
   case run x inp => exact einv_stepRun x inp A.e A.m A.r h3 h2
@@ -160,8 +161,8 @@ theorem einv_step {σ : St} (l : Label) (A : AllInv σ) (h : SafeStepOK σ l) : 
   case arc t => exact einv_arc t A.e
   case wake t => exact einv_wake t A.e
 
-theorem allInv_init (N : Nat) (bcast : Bool) (wait : WaitK) (fut : Bool) (hN : 0 < N) : AllInv (init N bcast wait fut) :=
-  ⟨rinv_init N bcast wait fut hN, mgi_init N bcast wait fut, einv_init N bcast wait fut⟩
+theorem allInv_init (N : Nat) (bcast : Bool) (wait : WaitK) (fut : Bool) : AllInv (init N bcast wait fut) :=
+  ⟨reginv_init N bcast wait fut, mgi_init N bcast wait fut, einv_init N bcast wait fut⟩
 
 theorem allInv_safeRun {σ σ' : St} {ls : List Label} (r : SafeRun σ ls σ') (A : AllInv σ) : AllInv σ' := by
   induction r with
